@@ -376,6 +376,11 @@ func countExprArgs(expr *LVal) (nargs int, short bool, nopt int, vargs bool, err
 			if cell.quoted {
 				continue
 			}
+			if cell.Type != LSymbol {
+				// Only symbols are argument placeholders.  A string
+				// literal shares the Str field: "%d" is data.
+				continue
+			}
 			if !strings.HasPrefix(cell.Str, "%") {
 				continue
 			}
